@@ -147,7 +147,7 @@ func (h *handler) OnOpen(c gnet.Conn) (out []byte, action gnet.Action) {
 	}
 	h.script(ci, "open")
 	action = h.pickAction(ci, "open")
-	if h.cfg.scenario == "onopen-big-reply" {
+	if h.cfg.scenario == "onopen-big-reply" || h.cfg.scenario == "onopen-big-reply-shutdown" {
 		// a reply far larger than the socket buffer and nothing written before it: conn.open's own
 		// write loop meets a short write and then EAGAIN
 		out = make([]byte, 400000)
@@ -343,6 +343,13 @@ func (h *handler) pickAction(ci *connInfo, cb string) gnet.Action {
 		}
 		if h.cfg.scenario == "shutdown-sweep" && cb == "close" {
 			return gnet.Shutdown // every OnClose of the shutdown sweep asks for shutdown again
+		}
+		if h.cfg.scenario == "onopen-big-reply-shutdown" && cb == "open" {
+			h.rec.mu.Lock()
+			h.rec.shutdown = true
+			h.rec.shutdownAsked = true
+			h.rec.mu.Unlock()
+			return gnet.Shutdown
 		}
 		if h.cfg.scenario == "shutdown-from-onclose" && cb == "close" {
 			h.rec.mu.Lock()
@@ -899,7 +906,7 @@ func (h *handler) scenarioScript(ci *connInfo, cb string) {
 			h.doCall(ci, "next", -1, nil, false)
 			h.doCall(ci, "write", 0, big(10), false) // the first write of the case fails: EPIPE injected
 		}
-	case "accept-fatal", "onopen-big-reply":
+	case "accept-fatal", "onopen-big-reply", "onopen-big-reply-shutdown":
 		if cb == "traffic" {
 			h.doCall(ci, "next", -1, nil, false)
 		}
